@@ -16,6 +16,7 @@ var checks = map[string]func(*Ctx){
 	"C10": runC10,
 	"C11": runC11,
 	"C12": runC12,
+	"C17": runC17,
 }
 
 func main() {
